@@ -83,6 +83,14 @@ Theorem C44_rounds_independent : forall T rs k r, 0 <= T -> nth_error rs k = Som
 Proof. intros T rs k r HT E. unfold rounds. rewrite (map_nth_error _ _ _ E). rewrite (wait_phase_spec T r HT). reflexivity. Qed.
 Print Assumptions C44_rounds_independent.
 
+
+(* every connection a holder listed at the start of the round is visited exactly once, in order, and treated according to its own
+   state -- also when an earlier one in the list is dead and its owner drops it while the round is running *)
+Theorem C44_every_listed_connection_visited : forall listed i c, nth_error listed i = Some c ->
+  nth_error (send_phase listed) i = Some (decide c) /\ length (send_phase listed) = length listed.
+Proof. intros listed i c E. unfold send_phase. split; [exact (map_nth_error _ _ _ E)|apply map_length]. Qed.
+Print Assumptions C44_every_listed_connection_visited.
+
 Example C44_nonvacuous_deadline : wait_phase 100 [Some 40; Some 60; Some 90; None; Some 10; Some 101] = [true; true; true; false; true; false].
 Proof. reflexivity. Qed.
 
